@@ -27,7 +27,7 @@ RULE = ("case = history of one file: 2..10 commits, linear / branching / merges 
         "lines; model + soundness only); non-trivial = at least two versions differ; distinct by content")
 
 BUCKETS = [(3, "distinct-linear"), (3, "distinct-merge"), (1, "distinct-merge-big"), (1, "distinct-merge-skew"),
-           (1, "distinct-merge-equaltime"), (1, "distinct-merge-absent"), (2, "dup-linear"), (3, "dup-merge"), (1, "dup-merge-absent"),
+           (1, "distinct-merge-equaltime"), (1, "distinct-merge-absent"), (3, "distinct-twin-merge"), (1, "distinct-twin-merge-equaltime"), (2, "dup-linear"), (3, "dup-merge"), (1, "dup-merge-absent"),
            (1, "dup-merge-skew")]
 
 
@@ -145,7 +145,7 @@ class Main(Suite):
                 if k["content"] is not None:
                     es.append(U.F("f", bytes.fromhex(k["content"])))
                 th = repo.put_tree(U.canon(es))
-                ids.append(repo.put_commit(th, [ids[p] for p in k["parents"]], k["when"]))
+                ids.append(repo.put_commit(th, [ids[p] for p in k["parents"]], k["when"], msg=b"c%d\n" % len(ids)))
             if e.get("ids") != ids:
                 fails[c["id"]] = "commit ids differ between go-git and python/git"
                 continue
